@@ -1,11 +1,575 @@
-// Package c13: correspondence ops for C13 (stub, not yet built).
+// Package c13: the launch request (NodeClaim) carries the scheduler's decision faithfully.
 package c13
 
 import (
+	"context"
+	"encoding/json"
+	"fmt"
+	"math/rand/v2"
+	"sort"
+	"strings"
+
+	corev1 "k8s.io/api/core/v1"
+	metav1 "k8s.io/apimachinery/pkg/apis/meta/v1"
+	"k8s.io/apimachinery/pkg/types"
+
+	v1 "sigs.k8s.io/karpenter/pkg/apis/v1"
+	"sigs.k8s.io/karpenter/pkg/cloudprovider/fake"
+	provsched "sigs.k8s.io/karpenter/pkg/controllers/provisioning/scheduling"
+	"sigs.k8s.io/karpenter/pkg/scheduling"
+	"sigs.k8s.io/karpenter/pkg/test"
+
 	"verifharness/internal/core"
 	"verifharness/internal/registry"
+	rg "verifharness/internal/reqgen"
 )
 
 func init() { registry.Register("C13", Ops) }
 
-func Ops() []*core.Op { return nil }
+type Sel struct {
+	Key       string   `json:"key"`
+	Op        string   `json:"op"`
+	Values    []string `json:"values"`
+	MinValues *int     `json:"minValues"`
+}
+
+func selsOf(rs []v1.NodeSelectorRequirementWithMinValues, key string) []Sel {
+	out := []Sel{}
+	for _, s := range rs {
+		if s.Key != key {
+			continue
+		}
+		vals := append([]string{}, s.Values...)
+		sort.Strings(vals)
+		out = append(out, Sel{Key: s.Key, Op: string(s.Operator), Values: vals, MinValues: s.MinValues})
+	}
+	// canonical order within a key: Gte, Lte, then the rest (the model's order)
+	rank := map[string]int{"Gte": 0, "Lte": 1}
+	sort.SliceStable(out, func(i, j int) bool {
+		ri, ok := rank[out[i].Op]
+		if !ok {
+			ri = 2
+		}
+		rj, ok := rank[out[j].Op]
+		if !ok {
+			rj = 2
+		}
+		return ri < rj
+	})
+	return out
+}
+
+// ---------- c13.roundtrip ----------
+
+type RTIn struct {
+	Key    string    `json:"key"`
+	Exprs  []rg.Expr `json:"exprs"`
+	Probes []string  `json:"probes"`
+}
+
+var rtKeys = []string{"team", "example.com/tier", "topology.kubernetes.io/zone", "node.kubernetes.io/instance-type"}
+
+func genExprs(r *rand.Rand, malformed bool, max int) []rg.Expr {
+	n := 1 + r.IntN(max)
+	es := make([]rg.Expr, n)
+	for i := range es {
+		es[i] = rg.RandExpr(r, malformed)
+	}
+	return es
+}
+
+func implRT(raw json.RawMessage) (any, error) {
+	var in RTIn
+	if err := json.Unmarshal(raw, &in); err != nil {
+		return nil, err
+	}
+	r := rg.Build(in.Key, in.Exprs)
+	R := scheduling.NewRequirements(r)
+	sels := R.NodeSelectorRequirements()
+	back := scheduling.NewNodeSelectorRequirementsWithMinValues(sels...)
+	rb := back.Get(r.Key)
+	row := func(q *scheduling.Requirement) []bool {
+		o := make([]bool, len(in.Probes))
+		for i, p := range in.Probes {
+			o[i] = q.Has(p)
+		}
+		return o
+	}
+	return map[string]any{"mem": rg.SnapOf(r), "sels": selsOf(sels, r.Key), "back": rg.SnapOf(rb), "hasMem": row(r), "hasBack": row(rb)}, nil
+}
+
+// ---------- c13.any ----------
+
+type AnyIn struct {
+	Key   string    `json:"key"`
+	Exprs []rg.Expr `json:"exprs"`
+	N     int       `json:"n"`
+}
+
+func implAny(raw json.RawMessage) (any, error) {
+	var in AnyIn
+	if err := json.Unmarshal(raw, &in); err != nil {
+		return nil, err
+	}
+	r := rg.Build(in.Key, in.Exprs)
+	outs := make([]string, in.N)
+	for i := range outs {
+		outs[i] = r.Any()
+	}
+	return map[string]any{"outs": outs}, nil
+}
+
+// validated NodePool-style numeric expressions (what ValidateRequirement accepts: one non-negative integer)
+func genValidatedExprs(r *rand.Rand) []rg.Expr {
+	n := 1 + r.IntN(3)
+	es := make([]rg.Expr, 0, n)
+	nums := []string{"0", "1", "2", "3", "4", "5", "7", "05", rg.MaxIntS, "9223372036854775806"}
+	for i := 0; i < n; i++ {
+		switch op := rg.Ops[r.IntN(len(rg.Ops))]; {
+		case rg.IsCmp(op):
+			es = append(es, rg.Expr{Op: op, Values: []string{nums[r.IntN(len(nums))]}})
+		case op == "In" || op == "NotIn":
+			k := r.IntN(4)
+			if op == "In" && k == 0 {
+				k = 1
+			}
+			vs := []string{}
+			for j := 0; j < k; j++ {
+				vs = append(vs, []string{"0", "1", "2", "3", "4", "5", "a", "b", "05"}[r.IntN(9)])
+			}
+			es = append(es, rg.Expr{Op: op, Values: vs})
+		default:
+			es = append(es, rg.Expr{Op: op, Values: []string{}})
+		}
+	}
+	return es
+}
+
+// ---------- c13.template ----------
+
+type KV struct {
+	K string `json:"k"`
+	V string `json:"v"`
+}
+
+type Taint struct {
+	Key    string `json:"key"`
+	Value  string `json:"value"`
+	Effect string `json:"effect"`
+}
+
+type KeyExprs struct {
+	Key   string    `json:"key"`
+	Exprs []rg.Expr `json:"exprs"`
+}
+
+type TmplIn struct {
+	Name          string     `json:"name"`
+	Labels        []KV       `json:"labels"`
+	Taints        []Taint    `json:"taints"`
+	StartupTaints []Taint    `json:"startupTaints"`
+	Reqs          []KeyExprs `json:"reqs"`      // NodePool template requirements (validated by the real ValidateRequirement)
+	PodReqs       []KeyExprs `json:"podReqs"`   // extra narrowing added by the scheduler (pod requirements on the same keys)
+	NumTypes      int        `json:"numTypes"`  // instance-type options
+	Static        bool       `json:"static"`
+}
+
+var customKeys = []string{"team", "example.com/tier", "tenant"}
+
+func genTmpl(r *rand.Rand, t core.Tier) any {
+	in := TmplIn{Name: fmt.Sprintf("pool-%d", r.IntN(5)), NumTypes: 1 + r.IntN(8), Static: r.Float64() < 0.1}
+	for i, n := 0, r.IntN(3); i < n; i++ {
+		in.Labels = append(in.Labels, KV{K: []string{"env", "owner", "example.com/x"}[i], V: []string{"prod", "dev", "x1"}[r.IntN(3)]})
+	}
+	effects := []string{"NoSchedule", "NoExecute", "PreferNoSchedule"}
+	for i, n := 0, r.IntN(3); i < n; i++ {
+		in.Taints = append(in.Taints, Taint{Key: fmt.Sprintf("t%d", i), Value: "v", Effect: effects[r.IntN(3)]})
+	}
+	for i, n := 0, r.IntN(2); i < n; i++ {
+		in.StartupTaints = append(in.StartupTaints, Taint{Key: fmt.Sprintf("s%d", i), Value: "", Effect: effects[r.IntN(2)]})
+	}
+	// requirements over custom keys (every operator) and some well-known keys
+	perm := r.Perm(len(customKeys))
+	for i, n := 0, r.IntN(len(customKeys)+1); i < n; i++ {
+		in.Reqs = append(in.Reqs, KeyExprs{Key: customKeys[perm[i]], Exprs: genValidatedExprs(r)})
+	}
+	if r.Float64() < 0.5 {
+		in.Reqs = append(in.Reqs, KeyExprs{Key: corev1.LabelTopologyZone, Exprs: []rg.Expr{{Op: "In", Values: []string{"test-zone-1", "test-zone-2"}}}})
+	}
+	if r.Float64() < 0.3 {
+		in.Reqs = append(in.Reqs, KeyExprs{Key: v1.CapacityTypeLabelKey, Exprs: []rg.Expr{{Op: "In", Values: []string{"spot", "on-demand"}[:1+r.IntN(2)]}}})
+	}
+	if r.Float64() < 0.5 && len(in.Reqs) > 0 {
+		k := in.Reqs[r.IntN(len(in.Reqs))].Key
+		in.PodReqs = append(in.PodReqs, KeyExprs{Key: k, Exprs: genValidatedExprs(r)[:1]})
+	}
+	if in.Labels == nil {
+		in.Labels = []KV{}
+	}
+	if in.Taints == nil {
+		in.Taints = []Taint{}
+	}
+	if in.StartupTaints == nil {
+		in.StartupTaints = []Taint{}
+	}
+	if in.Reqs == nil {
+		in.Reqs = []KeyExprs{}
+	}
+	if in.PodReqs == nil {
+		in.PodReqs = []KeyExprs{}
+	}
+	return in
+}
+
+func toTaints(ts []Taint) []corev1.Taint {
+	var out []corev1.Taint
+	for _, t := range ts {
+		out = append(out, corev1.Taint{Key: t.Key, Value: t.Value, Effect: corev1.TaintEffect(t.Effect)})
+	}
+	return out
+}
+
+func fromTaints(ts []corev1.Taint) []Taint {
+	out := []Taint{}
+	for _, t := range ts {
+		out = append(out, Taint{Key: t.Key, Value: t.Value, Effect: string(t.Effect)})
+	}
+	return out
+}
+
+func implTmpl(raw json.RawMessage) (any, error) {
+	var in TmplIn
+	if err := json.Unmarshal(raw, &in); err != nil {
+		return nil, err
+	}
+	ctx := context.Background()
+	np := test.NodePool(v1.NodePool{ObjectMeta: metav1.ObjectMeta{Name: in.Name}})
+	np.UID = types.UID("uid-" + in.Name)
+	np.Spec.Template.Labels = map[string]string{}
+	for _, kv := range in.Labels {
+		np.Spec.Template.Labels[kv.K] = kv.V
+	}
+	np.Spec.Template.Spec.Taints = toTaints(in.Taints)
+	np.Spec.Template.Spec.StartupTaints = toTaints(in.StartupTaints)
+	var reqs []v1.NodeSelectorRequirementWithMinValues
+	for _, ke := range in.Reqs {
+		for _, e := range ke.Exprs {
+			reqs = append(reqs, v1.NodeSelectorRequirementWithMinValues{Key: ke.Key, Operator: corev1.NodeSelectorOperator(e.Op), Values: append([]string{}, e.Values...), MinValues: e.MinValues})
+		}
+	}
+	np.Spec.Template.Spec.Requirements = reqs
+	if in.Static {
+		one := int64(1)
+		np.Spec.Replicas = &one
+	}
+	// the property's domain: NodePools that pass validation
+	for _, rq := range reqs {
+		if err := v1.ValidateRequirement(ctx, rq); err != nil {
+			return map[string]any{"invalid": true}, nil
+		}
+	}
+	if err := np.RuntimeValidate(ctx); err != nil {
+		return map[string]any{"invalid": true}, nil
+	}
+	nct := provsched.NewNodeClaimTemplate(np)
+	its := fake.InstanceTypes(in.NumTypes)
+	nct.InstanceTypeOptions = its
+	for _, ke := range in.PodReqs {
+		for _, e := range ke.Exprs {
+			nct.Requirements.Add(rg.New(ke.Key, e))
+		}
+	}
+	nc := nct.ToNodeClaim()
+
+	back := scheduling.NewNodeSelectorRequirementsWithMinValues(nc.Spec.Requirements...)
+	keys := []string{}
+	for k := range nct.Requirements {
+		keys = append(keys, k)
+	}
+	sort.Strings(keys)
+	var keyOut []map[string]any
+	for _, k := range keys {
+		mem := nct.Requirements[k]
+		// probes: values of the in-memory requirement + boundary integers + the label actually written
+		var es []rg.Expr
+		snap := rg.SnapOf(mem)
+		es = append(es, rg.Expr{Op: "In", Values: snap.Values})
+		if snap.Gte != nil {
+			es = append(es, rg.Expr{Op: "Gte", Values: []string{fmt.Sprint(*snap.Gte)}})
+		}
+		if snap.Lte != nil {
+			es = append(es, rg.Expr{Op: "Lte", Values: []string{fmt.Sprint(*snap.Lte)}})
+		}
+		probes := rg.Probes(es)
+		if v, ok := nc.Labels[k]; ok {
+			found := false
+			for _, p := range probes {
+				if p == v {
+					found = true
+				}
+			}
+			if !found {
+				probes = append(probes, v)
+			}
+		}
+		hm, hb := make([]bool, len(probes)), make([]bool, len(probes))
+		var mvB *int
+		if back.Has(k) {
+			mvB = back.Get(k).MinValues
+		}
+		for i, p := range probes {
+			hm[i] = mem.Has(p)
+			hb[i] = back.Has(k) && back.Get(k).Has(p)
+		}
+		if !back.Has(k) {
+			hb = hm // key filtered out (simulation-only); the driver checks that no entry was written
+		}
+		keyOut = append(keyOut, map[string]any{"key": k, "probes": probes, "hasMem": hm, "hasBack": hb, "sels": selsOf(nc.Spec.Requirements, k), "mvMem": mem.MinValues, "mvBack": pick(back.Has(k), mvB, mem.MinValues)})
+	}
+	labels := []KV{}
+	for k, v := range nc.Labels {
+		labels = append(labels, KV{K: k, V: v})
+	}
+	sort.Slice(labels, func(i, j int) bool { return labels[i].K < labels[j].K })
+	options := []string{}
+	for _, it := range its {
+		options = append(options, it.Name)
+	}
+	instanceTypes := []string{}
+	for _, s := range nc.Spec.Requirements {
+		if s.Key == corev1.LabelInstanceTypeStable && s.Operator == corev1.NodeSelectorOpIn {
+			instanceTypes = append(instanceTypes, s.Values...)
+		}
+	}
+	return map[string]any{
+		"labels": labels, "keys": keyOut,
+		"taints": fromTaints(nc.Spec.Taints), "startupTaints": fromTaints(nc.Spec.StartupTaints),
+		"hash": nc.Annotations[v1.NodePoolHashAnnotationKey], "expectHash": np.Hash(),
+		"hashVersion": nc.Annotations[v1.NodePoolHashVersionAnnotationKey],
+		"instanceTypes": instanceTypes, "options": options,
+	}, nil
+}
+
+func pick(c bool, a, b *int) *int {
+	if c {
+		return a
+	}
+	return b
+}
+
+// ---------- registration ----------
+
+func sigOf(es []rg.Expr) string {
+	set := map[string]bool{}
+	for _, f := range rg.Features(es) {
+		if strings.HasPrefix(f, "op:") || f == "exclusions+bound" {
+			set[f] = true
+		}
+	}
+	var l []string
+	for k := range set {
+		l = append(l, k)
+	}
+	sort.Strings(l)
+	return strings.Join(l, ",")
+}
+
+func Ops() []*core.Op {
+	singles := rg.SingleExprs()
+	return []*core.Op{
+		{
+			Name: "c13.roundtrip",
+			Doc:  "Requirements.NodeSelectorRequirements() then NewNodeSelectorRequirementsWithMinValues(): snapshots, emitted entries, Has over probes before/after",
+			N:    func(t core.Tier) int { return map[core.Tier]int{core.Quick: 4000, core.Thorough: 80000}[t] },
+			Gen: func(r *rand.Rand, t core.Tier) any {
+				es := genExprs(r, r.Float64() < 0.1, 4)
+				return RTIn{Key: rtKeys[r.IntN(len(rtKeys))], Exprs: es, Probes: rg.Probes(es)}
+			},
+			Enum: func(t core.Tier) []any {
+				var out []any
+				stride := 1
+				if t == core.Quick {
+					stride = 11
+				}
+				i := 0
+				for _, a := range singles {
+					for _, b := range singles {
+						if i%stride == 0 {
+							es := []rg.Expr{a, b}
+							out = append(out, RTIn{Key: "team", Exprs: es, Probes: rg.Probes(es)})
+						}
+						i++
+					}
+				}
+				return out
+			},
+			ExhaustiveNote: "thorough: every intersection of two small-scope single expressions (quick: every 11th)",
+			Impl:           implRT,
+			Rule:           "non-trivial = the requirement combines at least two different operators on the key",
+			Nontrivial: func(raw json.RawMessage, impl any) bool {
+				var in RTIn
+				json.Unmarshal(raw, &in)
+				ops := map[string]bool{}
+				for _, e := range in.Exprs {
+					ops[e.Op] = true
+				}
+				return len(ops) >= 2
+			},
+			Labels: func(raw json.RawMessage, impl any) []string {
+				var in RTIn
+				json.Unmarshal(raw, &in)
+				l := rg.Features(in.Exprs)
+				if m, ok := impl.(map[string]any); ok {
+					if s, ok := m["sels"].([]any); ok {
+						l = append(l, fmt.Sprintf("entries=%d", len(s)))
+					}
+				}
+				return l
+			},
+			Signature: func(raw json.RawMessage, impl any) string {
+				var in RTIn
+				json.Unmarshal(raw, &in)
+				return "roundtrip:" + sigOf(in.Exprs)
+			},
+			Shrink: func(raw json.RawMessage) []any {
+				var in RTIn
+				json.Unmarshal(raw, &in)
+				var out []any
+				for _, es := range core.ShrinkList(in.Exprs) {
+					if len(es) > 0 {
+						out = append(out, RTIn{Key: in.Key, Exprs: es, Probes: rg.Probes(es)})
+					}
+				}
+				return out
+			},
+		},
+		{
+			Name: "c13.any",
+			Doc:  "Requirement.Any() called 24 times on requirements built from validated NodePool-style expressions (every operator combination, Lt 0, Lte MaxInt, exclusions inside a bounded range): relation + Kubernetes semantics + no panic",
+			N:    func(t core.Tier) int { return map[core.Tier]int{core.Quick: 4000, core.Thorough: 80000}[t] },
+			Gen: func(r *rand.Rand, t core.Tier) any {
+				if r.Float64() < 0.8 {
+					return AnyIn{Key: "team", Exprs: genValidatedExprs(r), N: 24}
+				}
+				return AnyIn{Key: "team", Exprs: genExprs(r, false, 3), N: 24}
+			},
+			Enum: func(t core.Tier) []any {
+				var out []any
+				for _, a := range singles {
+					out = append(out, AnyIn{Key: "team", Exprs: []rg.Expr{a}, N: 8})
+				}
+				return out
+			},
+			Impl: implAny,
+			Rule: "non-trivial = the requirement has a numeric bound or exclusions (the NotIn/Exists branch of Any with a restricted range)",
+			Nontrivial: func(raw json.RawMessage, impl any) bool {
+				var in AnyIn
+				json.Unmarshal(raw, &in)
+				for _, e := range in.Exprs {
+					if rg.IsCmp(e.Op) || (e.Op == "NotIn" && len(e.Values) > 0) {
+						return true
+					}
+				}
+				return false
+			},
+			Labels: func(raw json.RawMessage, impl any) []string {
+				var in AnyIn
+				json.Unmarshal(raw, &in)
+				l := rg.Features(in.Exprs)
+				if m, ok := impl.(map[string]any); ok {
+					if outs, ok := m["outs"].([]any); ok && len(outs) > 0 {
+						if s, _ := outs[0].(string); s == "" {
+							l = append(l, "out:empty")
+						} else {
+							l = append(l, "out:value")
+						}
+					}
+					if _, ok := m["panic"]; ok {
+						l = append(l, "out:panic")
+					}
+				}
+				return l
+			},
+			Signature: func(raw json.RawMessage, impl any) string {
+				var in AnyIn
+				json.Unmarshal(raw, &in)
+				return "any:" + sigOf(in.Exprs)
+			},
+			Shrink: func(raw json.RawMessage) []any {
+				var in AnyIn
+				json.Unmarshal(raw, &in)
+				var out []any
+				for _, es := range core.ShrinkList(in.Exprs) {
+					if len(es) > 0 {
+						out = append(out, AnyIn{Key: in.Key, Exprs: es, N: in.N})
+					}
+				}
+				return out
+			},
+		},
+		{
+			Name: "c13.template",
+			Doc:  "real NewNodeClaimTemplate + ToNodeClaim on generated NodePools that pass the real ValidateRequirement/RuntimeValidate: per-key admits-equality between scheduler requirements and NodeClaim.spec.requirements, labels/taints/hash from the template, custom labels admitted, instance types subset of options, no panic",
+			N:    func(t core.Tier) int { return map[core.Tier]int{core.Quick: 1500, core.Thorough: 30000}[t] },
+			Gen:  genTmpl,
+			Impl: implTmpl,
+			Rule: "non-trivial = the NodePool passes validation and has a requirement on a custom label key",
+			Nontrivial: func(raw json.RawMessage, impl any) bool {
+				var in TmplIn
+				json.Unmarshal(raw, &in)
+				if m, ok := impl.(map[string]any); ok {
+					if _, inv := m["invalid"]; inv {
+						return false
+					}
+				}
+				for _, ke := range in.Reqs {
+					for _, c := range customKeys {
+						if ke.Key == c {
+							return true
+						}
+					}
+				}
+				return false
+			},
+			Labels: func(raw json.RawMessage, impl any) []string {
+				var in TmplIn
+				json.Unmarshal(raw, &in)
+				l := []string{fmt.Sprintf("reqkeys=%d", len(in.Reqs)), fmt.Sprintf("static=%v", in.Static)}
+				if m, ok := impl.(map[string]any); ok {
+					if _, inv := m["invalid"]; inv {
+						l = append(l, "rejected-by-validation")
+					} else {
+						l = append(l, "valid")
+					}
+				}
+				for _, ke := range in.Reqs {
+					l = append(l, rg.Features(ke.Exprs)...)
+				}
+				return l
+			},
+			Signature: func(raw json.RawMessage, impl any) string { return "template" },
+			Shrink: func(raw json.RawMessage) []any {
+				var in TmplIn
+				json.Unmarshal(raw, &in)
+				var out []any
+				for _, rs := range core.ShrinkList(in.Reqs) {
+					c := in
+					c.Reqs = rs
+					if c.Reqs == nil {
+						c.Reqs = []KeyExprs{}
+					}
+					out = append(out, c)
+				}
+				for _, rs := range core.ShrinkList(in.PodReqs) {
+					c := in
+					c.PodReqs = rs
+					if c.PodReqs == nil {
+						c.PodReqs = []KeyExprs{}
+					}
+					out = append(out, c)
+				}
+				return out
+			},
+		},
+	}
+}
